@@ -106,6 +106,7 @@ from .iter_elim import (
     Ctx,
     Plan,
     Slot,
+    SubstCapture,
     SubstNames,
     clone,
     comp_binding_is_pairs,
@@ -237,6 +238,14 @@ class _EnumerateElimInstance(DefaultTransformVisitor):
     # List comprehensions
 
     def _visit_list_comp(self, e: ListComp, ctx: Any):
+        try:
+            return self._rewrite_list_comp(e, ctx)
+        except SubstCapture:
+            # an accessor would be captured by a nested comprehension's
+            # target: leave this comprehension for the backend
+            return super()._visit_list_comp(e, ctx)
+
+    def _rewrite_list_comp(self, e: ListComp, ctx: Any):
         new_targets: list[Id | TupleBinding] = []
         new_iterables: list[Expr] = []
         subst: dict[NamedId, Expr] = {}
